@@ -45,7 +45,7 @@ COMPONENTS = {
              "ad_afqmc.sampling.sampler.propagate_phaseless(_ad_norot)", "ad_afqmc.driver.afqmc", "jax / XLA CPU"],
     "stub": ["mpi4py.MPI -> SimComm/SimWorld", "wall clock", "stdout"],
 }
-REQUIRED_PROBES = {"quick": ["permuted_steps", "rebatched_steps", "restricted_vs_unrestricted_steps", "driver_pairs", "sampler_pairs", "perm_kind_steps", "multislater_pair_runs", "independence_ops"],
+REQUIRED_PROBES = {"quick": ["permuted_steps", "rebatched_steps", "restricted_vs_unrestricted_steps", "driver_pairs", "sampler_pairs", "perm_kind_steps", "multislater_pair_runs", "independence_ops", "cpmc_independence_ops"],
                    "thorough": ["permuted_steps", "rebatched_steps", "restricted_vs_unrestricted_steps", "driver_pairs", "sampler_pairs", "tail_steps", "sr_ops"]}
 
 OPS = ["step", "step", "step", "tail", "qr", "sr", "measure", "permute", "rebatch"]
@@ -79,6 +79,16 @@ def menu_entry(k):
                  n_eql=1, n_ene_blocks_eql=1, n_sr_blocks_eql=r.choice([1, 2]), ad_mode=r.choice([None, None, "forward"]), orbital_rotation=False, do_sr=r.choice([True, False]))
     if m.get("trial_kind") != "multislater":
         lab.corner_override(m, k, 14)
+    r9 = random.Random(140900 + k)
+    if m["kind"] == "perm" and m.get("corner") is None and r9.random() < 0.55:
+        # "every propagator": the constrained-path propagators draw their fields themselves (per walker position), so
+        # permuting is not meaningful for them, but independence of the walkers is
+        m = dict(kind="cpmc_indep", prop=["propagator_cpmc", "propagator_cpmc_nn", "propagator_cpmc_slow", "propagator_cpmc_continuous", "propagator_cpmc_nn_slow"][(k // 2) % 5],
+                 trial=r9.choice(["uhf_cpmc", "ghf_cpmc"]), lattice=r9.choice(["chain", "chain", "grid2x2"]), nelec=r9.choice([[2, 1], [2, 2], [1, 1]]),
+                 n_walkers=r9.choice([4, 6]), dt=r9.choice([0.01, 0.05]), norb=4, nchol=4, n_batch=1)
+        m["n_sites"] = 4 if m["lattice"] == "grid2x2" else r9.choice([3, 4])
+        if m["n_sites"] == 3 and m["nelec"] == [2, 2]:
+            m["nelec"] = [2, 1]
     return m
 
 
@@ -121,6 +131,10 @@ def gen_cfg(seed, index, tier):
                 # real block does, otherwise determinants lose (condition number x eps) and two correct programs differ
                 ops.append(["qr"])
         m["ops"] = ops
+    if m["kind"] == "cpmc_indep":
+        r9 = random.Random(seed + 149)
+        m.update(u=r9.choice([2.0, 4.0, 8.0]), u_1=r9.choice([0.5, 1.0]), stagger=r9.choice([0.0, 0.3, 1.0]), noise=r9.choice([0.0, 0.3]), theta=r9.choice([0.0, 0.4, 0.785]),
+                 chol="hubbard", n_warm=r9.choice([1, 2, 3]), rounds=[[r9.randrange(m["n_walkers"]), r9.choice([0.37, 1.9, 0.0])] for _ in range(r9.choice([2, 3, 4]))])
     if m["kind"] == "driver":
         for key in ("sched_a", "sched_b"):
             m[key] = {"policy": rng.choice(["random", "sticky", "straggler", "reverse"]), "straggler": rng.randrange(3), "p_rendezvous": rng.choice([0.0, 0.5, 1.0]), "p_clock_jump": 0.0}
@@ -269,7 +283,62 @@ def execute(cfg, ctx):
         return _exec_perm(cfg, ctx)
     if cfg["kind"] == "sampler":
         return _exec_sampler(cfg, ctx)
+    if cfg["kind"] == "cpmc_indep":
+        return _exec_cpmc_indep(cfg, ctx)
     return _exec_driver(cfg, ctx)
+
+
+def _exec_cpmc_indep(cfg, ctx):
+    """Constrained-path propagators: replacing one walker (matrix, weight, stored overlap and Green's function) must leave
+    every other walker's output of the next step bit-identical (the only coupling is the scalar shift, which is
+    updated after the weights)."""
+    import jax.numpy as jnp
+    from jax import random as jr
+
+    spec = {k: cfg[k] for k in ("lattice", "n_sites", "nelec", "u", "u_1", "dt", "n_walkers", "prop", "trial", "chol", "stagger", "theta", "noise", "ham_seed")}
+    s = lab.build_cpmc_system(spec)
+    nw = cfg["n_walkers"]
+    pd = s.prop.init_prop_data(s.trial, s.wave_data, s.ham_data, s.init_walkers)
+    pd["key"] = jr.PRNGKey(cfg["jax_seed"])
+    rs = np.random.RandomState((cfg["ham_seed"] + 5) % (2**32 - 1))
+    f = jnp.array(rs.normal(size=(nw, cfg["n_sites"])))
+    site = f"{cfg['prop']} / {cfg['trial']} (independence of walkers)"
+    for _ in range(cfg["n_warm"]):
+        pd = s.prop.propagate(s.trial, s.ham_data, lab.copy_pd(pd), f, s.wave_data)
+    rec = []
+    n_ops = 0
+    for k, (j, wj) in enumerate(cfg["rounds"]):
+        w0 = np.asarray(pd["weights"])
+        if not (np.all(np.isfinite(w0)) and float(np.sum(w0)) > 0):
+            ctx.count("population_extinct")
+            break
+        p2 = lab.copy_pd(pd)
+        wl = [np.array(pd["walkers"][0]), np.array(pd["walkers"][1])]
+        for t_ in (0, 1):
+            wl[t_][j] = wl[t_][(j + 1) % nw] + 0.2 * rs.normal(size=wl[t_][j].shape)
+        p2["walkers"] = [jnp.array(wl[0]), jnp.array(wl[1])]
+        w2 = np.array(w0)
+        w2[j] = wj
+        p2["weights"] = jnp.array(w2)
+        p2["overlaps"] = s.trial.calc_overlap(p2["walkers"], s.wave_data)
+        if "greens" in p2:
+            p2["greens"] = s.trial.calc_full_green_vmap(p2["walkers"], s.wave_data)
+        a = s.prop.propagate(s.trial, s.ham_data, lab.copy_pd(pd), f, s.wave_data)
+        b = s.prop.propagate(s.trial, s.ham_data, p2, f, s.wave_data)
+        oth = np.array([i for i in range(nw) if i != j and w0[i] > 0], dtype=int)
+        if len(oth):
+            for what, xa, xb in (("weights", np.asarray(a["weights"]), np.asarray(b["weights"])), ("overlaps", np.asarray(a["overlaps"]), np.asarray(b["overlaps"])),
+                                 ("walkers_up", np.asarray(a["walkers"][0]), np.asarray(b["walkers"][0])), ("walkers_dn", np.asarray(a["walkers"][1]), np.asarray(b["walkers"][1]))):
+                if not np.array_equal(xa[oth], xb[oth], equal_nan=True):
+                    _bad(ctx, "lockstep.walker_depends_on_another_walker", site, cfg, op=k, operation="propagate", quantity=what, replaced_walker=int(j))
+                    break
+            n_ops += 1
+        rec.append(arr_hash(np.asarray(a["weights"]), np.asarray(a["overlaps"])))
+        pd = a
+    ctx.probe("cpmc_independence_ops", n_ops)
+    return {"digest": arr_hash(np.frombuffer("|".join(rec).encode(), np.uint8)), "nontrivial": n_ops > 0,
+            "state_keys": [f"cpmc-indep-{cfg['prop']}-{cfg['trial']}-{cfg['lattice']}{cfg['n_sites']}-{cfg['nelec']}"],
+            "sim_steps": n_ops * 2 * nw, "sim_time": n_ops * cfg["dt"], "sample": {"cfg": cfg}}
 
 
 def _measure(s, pd):
